@@ -12,6 +12,7 @@ import AnthemModel.Proofs.DefinitionSem
 import AnthemModel.Proofs.InductionSound
 import AnthemModel.Proofs.OutlineSound
 import AnthemModel.Proofs.DefinitionAccepted
+import AnthemModel.Proofs.ExternalValid
 namespace Anthem.C13
 
 /-- well-sorted assignment -/
@@ -102,6 +103,18 @@ theorem outline_sound (dirName : String) (axioms0 : List AnnF) (lemmas : List Ge
     (hax : ∀ a ∈ axioms0, sat J a.formula ρ) :
     ∀ l ∈ lemmas, ∀ c ∈ l.consequences, sat J c.formula ρ :=
   Outline.outline_sound dirName axioms0 lemmas (fun l hl => (hgood l hl).1) (fun l hl => (hgood l hl).2.1) hnc J ρ hnot hax
+
+/-- **Soundness of an outline with no side condition** (since fix 611037e `rename_conflicting_symbols`
+    renames propositional predicates to free names, which does not matter for validity): if NO outline
+    problem has a countermodel, every interpretation that satisfies the axioms of the direction satisfies
+    every lemma that the outline makes available as an axiom. -/
+theorem outline_sound_no_side_condition (dirName : String) (axioms0 : List AnnF) (lemmas : List GeneralLemma)
+    (hgood : ∀ l ∈ lemmas, Outline.GLGood l)
+    (hvalid : ∀ P ∈ outlineProblems dirName axioms0 lemmas, ∀ J ρ, ¬ Refutes J ρ P)
+    (J : Interp) (ρ : Asg) (hax : ∀ a ∈ axioms0, sat J a.formula ρ) :
+    ∀ l ∈ lemmas, ∀ c ∈ l.consequences, sat J c.formula ρ :=
+  Outline.outline_sound_valid dirName axioms0 lemmas (fun l hl => (hgood l hl).1) (fun l hl => (hgood l hl).2.1)
+    hvalid J ρ hax
 
 /-- the two obligations of an inductive lemma imply the lemma itself (whatever its shape) -/
 theorem inductive_lemma_justified (f base step : Formula) (h : inductiveLemma f = .ok (base, step)) (J : Interp) (ρ : Asg)
